@@ -22,6 +22,15 @@ type ProgCase struct {
 	Globals    CtxTerm
 	Ctx        *CtxTerm
 	Label      string
+	key        string // the request of the case as its suite built it (before Varied)
+}
+
+// Key identifies the case as its suite built it: tables of expectations are keyed by it.
+func (c ProgCase) Key() string {
+	if c.key != "" {
+		return c.key
+	}
+	return c.Req()
 }
 
 func b01(b bool) string {
@@ -62,6 +71,25 @@ func (c ProgCase) Req() string {
 		sb.WriteString(c.Ctx.Wire())
 	}
 	return sb.String()
+}
+
+// Varied returns the case with the Go representations of its values varied.
+func (c ProgCase) Varied(r *RNG) ProgCase {
+	c.key = c.Key()
+	if c.Ctx != nil {
+		for _, v := range c.Ctx.Vals {
+			if v.K == "func" {
+				// Go functions are called with Go-typed arguments: an int64 is not an int there
+				return c
+			}
+		}
+	}
+	c.Globals = c.Globals.varied(r, false)
+	if c.Ctx != nil {
+		v := c.Ctx.varied(r, false)
+		c.Ctx = &v
+	}
+	return c
 }
 
 func sortedKeys(m map[string]string) []string {
@@ -288,6 +316,15 @@ func runProgCases(cfg Config, res *Result, cases []ProgCase, sigPrefix string, n
 		uniq = append(uniq, c)
 	}
 	cases = uniq
+	// two cases in three run with varied Go representations of their context and
+	// globals (int8, float32, named types, typed and nil slices ...): the model's
+	// terms - and so its answer - are the same
+	vr := NewRNG(cfg.Seed*0x9E3779B97F4A7C15 + uint64(len(cases)))
+	for i := range cases {
+		if vr.Intn(3) != 0 {
+			cases[i] = cases[i].Varied(vr)
+		}
+	}
 	impl := make([]ImplOutcome, len(cases))
 	parMap(len(cases), func(i int) { impl[i] = cases[i].RunImpl() })
 	reqs := make([]string, len(cases))
